@@ -16,11 +16,11 @@ Tolerances: a request whose part headers + text values exceed max_memfile_size m
 non-empty (filename="" is what browsers send for "no file chosen"; ombott stores None in forms for it - reported,
 not judged); code points are any but '"', CR, LF and the lone surrogates (not encodable).
 
-Defects of the unchanged tree found by this check keep one dedicated, smallest query each (semicolon/*, linebreak/*,
-mixed-kinds/*, quoted-boundary/*); every other query excludes exactly their triggers:
-  ';' inside a quoted name / file name; the characters str.splitlines() treats as line ends besides CR and LF
-  (VT FF FS GS RS NEL LS PS) inside a name / file name; a text part and an upload sharing one name; a quoted boundary
-  parameter.
+History: this check found four defects, repaired in /repo by 7a1991b (';' inside a quoted name / file name ended the
+parameter), 3aa85a2 (part headers were split with str.splitlines(): VT FF FS GS RS NEL LS PS inside a name / file name
+broke the header line), 227f4dc (a text part and an upload sharing a name leaked into each other's container) and
+c16fb32 (a quoted boundary parameter lost every field).  Each keeps its smallest query as a regression (semicolon/*,
+linebreak/*, mixed-kinds/*, quoted-boundary/*); no query excludes any of these inputs.
 """
 from vf.engine import assume, cover
 from vf.query import Q
@@ -54,7 +54,9 @@ LEVEL_NOTE = ("Trusted: z3; CrossHair's str/bytes/int/UTF-8 codec models; PyPatt
               "mis-orders lazy matches inside optional groups); PyBytesIO/SymStream stubs; harness/mpgrammar.py encoder; the "
               "reference semantics in the harness docstring. End-to-end names are drawn by the solver from a fixed list "
               "(dict hashing would realise a free string); free names are covered by layers 1-2. Texts are compared code "
-              "point by code point (CrossHair's `==` between differently represented symbolic strings is unreliable).")
+              "point by code point (CrossHair's `==` between differently represented symbolic strings is unreliable). "
+              "No input of the property's quantifier is excluded: the four defects this check found are fixed in /repo and "
+              "their smallest queries are kept as regressions.")
 FUNCTIONS = [
     "ombott.request_pkg.multipart:FieldStorage.parse_header",
     "ombott.request_pkg.multipart:FieldStorage.read",
@@ -84,8 +86,7 @@ ASSUMPTIONS = [
     "the encoder of harness/mpgrammar.py is what 'encoding as multipart/form-data' means: unescaped UTF-8 names in quoted "
     "parameters, name before filename, no preamble, CRLF epilogue",
     "file names are non-empty; strings contain no lone surrogates",
-    "excluded from all but the dedicated queries (triggers of reported defects): ';' and VT/FF/FS/GS/RS/NEL/LS/PS in names "
-    "and file names, a text part and an upload with the same name, a quoted boundary parameter",
+    "the boundary parameter is sent unquoted except in the quoted-boundary regression query",
     "content type of an upload is observed as FileUpload.content_type (text or header object with .value)",
 ]
 OUTSIDE = [
@@ -106,16 +107,6 @@ CRLF = b"\r\n"
 def legal(o):
     """code point allowed by the property in names and file names: not '"', CR, LF (and encodable)"""
     return o != 34 and o != 13 and o != 10 and not 0xD800 <= o <= 0xDFFF
-
-
-def line_end(o):
-    """what str.splitlines() treats as a line end besides CR and LF"""
-    return o == 11 or o == 12 or 28 <= o <= 30 or o == 0x85 or 0x2028 <= o <= 0x2029
-
-
-def plain(o):
-    """legal and not a trigger of the reported defects"""
-    return legal(o) and o != 59 and not line_end(o)
 
 
 def no_surrogate(o):
@@ -278,10 +269,10 @@ def judge_fields(items, parts):
 NEIGHBOURS = (text_part("first", "--b"), file_part("last", "l.bin", "application/octet-stream", b"\r\n-\r\n-b--\r"))
 
 
-def make_read_string(boundary, slot, nmax, pred):
+def make_read_string(boundary, slot, nmax):
     """one symbolic string in `slot` of the middle part(s); fixed neighbours before and after"""
     def q(s: str):
-        s = sym_text(s, 1, nmax, pred) if slot != "value" else sym_text(s, 0, nmax, no_surrogate)
+        s = sym_text(s, 1, nmax, legal) if slot != "value" else sym_text(s, 0, nmax, no_surrogate)
         if slot == "name":
             mid = [text_part(s, "v"), file_part(s, "f.txt", "text/plain", b"DATA")]
         elif slot == "filename":
@@ -491,8 +482,7 @@ def judge_post(status, seen, parts, over_budget):
     return None
 
 
-def make_wsgi(kinds, hot, framing, window, nnames, vmax, ncuts=2, allow_mixed=False,
-              content_type="multipart/form-data; boundary=b"):
+def make_wsgi(kinds, hot, framing, window, nnames, vmax, ncuts=2, content_type="multipart/form-data; boundary=b"):
     """kinds: 'T'/'F' per part.  Part `hot` carries the symbolic value (text, <= vmax characters) or content (upload,
     <= vmax symbolic bytes in CRLF-dash surroundings); the names are NAMES[i] for solver-chosen i < nnames (so any
     two may coincide); max_memfile_size t is taken from `window`: 'budget' = in-memory need -1..+1, 'body' = body
@@ -502,10 +492,6 @@ def make_wsgi(kinds, hot, framing, window, nnames, vmax, ncuts=2, allow_mixed=Fa
         idx = [i1, i2, i3]
         for k in range(3):
             assume(0 <= idx[k] < nnames if k < len(kinds) else idx[k] == 0)
-        if not allow_mixed:
-            for a in range(len(kinds)):
-                for b in range(a):
-                    assume(kinds[a] == kinds[b] or idx[a] != idx[b])
         hot_text = hot is not None and kinds[hot] == "T"
         v = sym_text(v, 0, vmax if hot_text else 0, no_surrogate)
         d = sym_bytes(d, 0, vmax if hot is not None and not hot_text else 0)
@@ -556,29 +542,28 @@ def queries(tier):
         out.append(Q(qid, fn, bound, timeout=timeout, expect_cover=labels, family=family, config=config))
 
     any_cp = "every code point except '\"', CR, LF, surrogates"
-    plain_cp = any_cp + " and except ';', VT, FF, FS, GS, RS, NEL, LS, PS (reported defects)"
-    # dedicated queries of the reported defects (smallest shape, full alphabet of the property)
+    # smallest shapes that exposed the four defects since fixed in /repo (see History above)
     add("semicolon/header", make_header(1, True, legal),
         "parse_header on Content-Disposition with name and file name of length <= 1, %s" % any_cp, 100, ["full-length"],
-        "defect")
-    add("linebreak/read-name", make_read_string(b"b", "name", 1, lambda o: legal(o) and o != 59),
-        "FieldStorage.iter_items on a 4-part body, the name of parts 2 and 3 = one symbolic character, %s, ';' excluded"
-        % any_cp, 200, ["full-length"], "defect")
-    add("mixed-kinds/wsgi", make_wsgi("TF", None, "cl", "body", 2, 0, allow_mixed=True),
+        "regression")
+    add("linebreak/read-name", make_read_string(b"b", "name", 1),
+        "FieldStorage.iter_items on a 4-part body, the name of parts 2 and 3 = one symbolic character, %s" % any_cp,
+        200, ["full-length"], "regression")
+    add("mixed-kinds/wsgi", make_wsgi("TF", None, "cl", "body", 2, 0),
         "POST of a text part and an upload whose names are solver-chosen from %r (may coincide), Content-Length framing, "
-        "max_memfile_size = body length -1..+1" % (NAMES[:2],), 200, ["delivered"], "defect")
+        "max_memfile_size = body length -1..+1" % (NAMES[:2],), 200, ["delivered"], "regression")
     add("quoted-boundary/wsgi", make_wsgi("T", 0, "cl", "body", 1, 1, content_type='multipart/form-data; boundary="b"'),
         "POST of one text part (value of <= 1 symbolic character) with the boundary parameter sent as a quoted string",
-        200, ["delivered"], "defect")
+        200, ["delivered"], "regression")
 
     # (1) parse_header
     n = 3 if not T else 4
-    add("header/name/n%d" % n, make_header(n, False, lambda o: legal(o) and o != 59),
-        "parse_header on 'Content-Disposition: form-data; name=\"N\"', |N| <= %d, %s except ';'" % (n, any_cp),
+    add("header/name/n%d" % n, make_header(n, False, legal),
+        "parse_header on 'Content-Disposition: form-data; name=\"N\"', |N| <= %d, %s" % (n, any_cp),
         100 if not T else 400, ["full-length"], "header")
     n = 2 if not T else 3
-    add("header/file/n%d" % n, make_header(n, True, lambda o: legal(o) and o != 59),
-        "parse_header on '...; name=\"N\"; filename=\"F\"', |N|,|F| <= %d, %s except ';'" % (n, any_cp),
+    add("header/file/n%d" % n, make_header(n, True, legal),
+        "parse_header on '...; name=\"N\"; filename=\"F\"', |N|,|F| <= %d, %s" % (n, any_cp),
         200 if not T else 1000, ["full-length"], "header")
     add("header/ctype", make_ctype_header(2 if not T else 3),
         "parse_header on 'Content-Type: text/S[; charset=utf-8]', S = 1..%d printable ASCII characters except ';', '=', '\"'"
@@ -588,9 +573,9 @@ def queries(tier):
     for boundary in ([b"b"] if not T else [b"b", b"--", b"b-b"]):
         for slot in ("name", "filename", "value"):
             n = 1 if not T or boundary != b"b" else 2
-            add("read/%s/%s/n%d" % (boundary.decode(), slot, n), make_read_string(boundary, slot, n, plain),
+            add("read/%s/%s/n%d" % (boundary.decode(), slot, n), make_read_string(boundary, slot, n),
                 "body of 3-4 parts with boundary %r, fixed neighbours; the %s of the middle part(s) is a symbolic string of "
-                "length <= %d, %s" % (boundary, slot, n, plain_cp if slot != "value" else "every encodable code point"),
+                "length <= %d, %s" % (boundary, slot, n, any_cp if slot != "value" else "every encodable code point"),
                 150 if n == 1 else 1100, ["full-length"], "read", {"boundary": boundary.decode(), "slot": slot})
     for boundary, names in ([(b"b", ["tail", "almost"]), (b"--", ["tail"])] if not T else
                             [(b"b", list(TEMPLATES)), (b"--", list(TEMPLATES)), (b"b-b", ["free", "tail"])]):
@@ -616,8 +601,8 @@ def queries(tier):
                 "part %d carries content with <= %d symbolic byte(s) inside CRLF-dash surroundings" % (hot, vmax))
         add("wsgi/%s/hot%s/%s/%s" % (kinds or "none", hot, framing, window),
             make_wsgi(kinds, hot, framing, window, nnames, vmax, ncuts),
-            "POST of parts %s through Ombott.__call__, %s; names solver-chosen from %r (parts of the same kind may share a "
-            "name); %s; max_memfile_size %s" % (
+            "POST of parts %s through Ombott.__call__, %s; names solver-chosen from %r (any parts may share a name, whatever their "
+            "kinds); %s; max_memfile_size %s" % (
                 kinds or "(none)",
                 "Content-Length framing" if framing == "cl" else "chunked framing (two chunks, %d cut positions near the end)"
                 % ncuts, NAMES[:nnames], what,
